@@ -421,6 +421,7 @@ class MultiAxis(Axis):
         self._values = None  # values not computed unless needed
         self._size = None  
         self._attrs = dict()
+        self._monotonic = None
 
     @property
     def values(self):
